@@ -212,6 +212,20 @@ func execute(h history, k int, f *fault, res *result) (func(), func(*vsched.Exec
 				res.methods = append(res.methods, c.Method)
 			}
 		}
+		if f != nil && f.panic {
+			// After a panic the model is no longer followed and leaks are not
+			// judged (DESIGN §4.0), but "only that request is affected" still
+			// rules out that LATER requests are served from a File that has
+			// been closed, or close it again.
+			for _, pr := range fs.Problems {
+				// (memfs also reports a child whose PARENT handle is closed; after
+				// a panic inside Close itself that state is undefined: not judged)
+				if (pr.Kind == "use-after-close" || pr.Kind == "double-close") && !strings.Contains(pr.Detail, "needs parent handle") {
+					add("after-panic|backend|"+pr.Kind, fmt.Sprintf("%s: after the injected panic in %s: %s", h.name, faultedMethod, pr.Detail))
+					break
+				}
+			}
+		}
 		for _, x := range sessions {
 			x.Hangup()
 			x.WaitDone()
@@ -245,8 +259,8 @@ type errnoErr uint32
 func (e errnoErr) Error() string { return fmt.Sprintf("errno %d", uint32(e)) }
 
 func run(ctx *fw.Ctx, rep *fw.Report) {
-	rep.Rule = "corpus = 10 hand-written histories (failed multi-step walks, fid replacement, create-rebind, xattr fids, rename/unlink of referenced entries, directory rename with live descendants one and two levels below, attach names, open/readdir, node creation) + every history [attach; walk d; walk f; a; b] for all ordered pairs (a,b) of a 28-request structural alphabet (quick: a third of the first requests); for EVERY backend call index k of each history and every fault in {EIO, errno 117, panic} the fault is injected at call k and the history continues, followed by follow-up requests on every bound fid, write operations in every directory and a second connection on the same paths; each case is one execution under the controlled scheduler (default schedule) so that an unreleased lock shows as a precise deadlock instead of a hang; oracle: faulted request answered Rlerror(errno) / EFAULT, every later request answered, after an error the replies agree with the reference model from the pre-fault state (Tclunk/Tremove unbound), live backend handles == needed handles, every handle closed exactly once at disconnect (not asserted after a panic)"
-	rep.Assumptions = append(rep.Assumptions, "errors of Close and Renamed need not be reported (File contract: Close errors are ignored, Renamed cannot fail)", "after a panic only liveness is asserted (DESIGN §4.0)", "injected errors happen at call entry: the failing call itself has no effect", "default schedule only: schedule-dependent fault handling is covered by C05/C16")
+	rep.Rule = "corpus = 10 hand-written histories (failed multi-step walks, fid replacement, create-rebind, xattr fids, rename/unlink of referenced entries, directory rename with live descendants one and two levels below, attach names, open/readdir, node creation) + every history [attach; walk d; walk f; a; b] for all ordered pairs (a,b) of a 28-request structural alphabet (quick: a third of the first requests); for EVERY backend call index k of each history and every fault in {EIO, errno 117, panic} the fault is injected at call k and the history continues, followed by follow-up requests on every bound fid, write operations in every directory and a second connection on the same paths; each case is one execution under the controlled scheduler (default schedule) so that an unreleased lock shows as a precise deadlock instead of a hang; oracle: faulted request answered Rlerror(errno) / EFAULT, every later request answered, after an error the replies agree with the reference model from the pre-fault state (Tclunk/Tremove unbound), live backend handles == needed handles, every handle closed exactly once at disconnect (after a panic instead: no later request uses a closed File or closes one twice)"
+	rep.Assumptions = append(rep.Assumptions, "errors of Close and Renamed need not be reported (File contract: Close errors are ignored, Renamed cannot fail)", "after a panic the model is no longer followed and leaks are not judged (DESIGN §4.0); asserted: every later request is answered, and none is served from a File that has been closed or closes one again", "injected errors happen at call entry: the failing call itself has no effect", "default schedule only: schedule-dependent fault handling is covered by C05/C16")
 	hs := corpus(ctx.Quick())
 	rep.Info["histories"] = len(hs)
 	idx := 0
